@@ -36,12 +36,43 @@ package ethereum
 //@   ensures err == nil ==> ev != nil && allocated(ev) && ev.Raw.TxHash == log.TxHash && ev.Raw.BlockHash == log.BlockHash && ev.Raw.BlockNumber == log.BlockNumber
 //@   modifies fresh abi.AbiLogMessagePublished.*
 
-// the head as the node reports it now; every call is one head read
-//@ func (b *BlockPollConnector) getBlock(ctx context.Context, logger *zap.Logger, number *big.Int, safe bool) (r *NewBlock, err error)
+// the raw JSON-RPC call behind the block poller: fills *result with whatever the node says
+//@ func (c Connector) RawCallContext(ctx context.Context, result interface{}, method string, args ...interface{}) (err error)
 //@   assume-contract
 //@   counts headread
-//@   ensures err == nil ==> r != nil && allocated(r) && r.Number != nil && allocated(r.Number)
+//@   modifies arg:result
+
+// the head as the node reports it now; every call is one head read. The block handed on
+// carries a block number and exactly the `safe` flag it was asked with (a safe/finalized
+// head makes the watcher skip the confirmation count).
+//@ func getBlock(ctx context.Context, logger *zap.Logger, conn Connector, number *big.Int, useFinalized bool, safe bool) (r *NewBlock, err error)
+//@   props C10
+//@   requires conn != nil
+//@   ensures [result-or-error] (err == nil) == (r != nil)
+//@   ensures [number-and-flag] err == nil ==> allocated(r) && r.Number != nil && allocated(r.Number) && r.Safe == safe
+//@   ensures [one-head-read] ghostCount("headread") == old(ghostCount("headread")) + 1
 //@   modifies fresh NewBlock.*, fresh lib:big.Int.v
+//@   nopanic
+
+//@ func (b *BlockPollConnector) getBlock(ctx context.Context, logger *zap.Logger, number *big.Int, safe bool) (r *NewBlock, err error)
+//@   props C10
+//@   requires b != nil && b.Connector != nil
+//@   ensures err == nil ==> r != nil && allocated(r) && r.Number != nil && allocated(r.Number) && r.Safe == safe
+//@   ensures [one-head-read] ghostCount("headread") == old(ghostCount("headread")) + 1
+//@   counts headread
+//@   modifies fresh NewBlock.*, fresh lib:big.Int.v
+//@   nopanic
+
+// one poll: a head is published only if it is higher than the last one published, carries
+// the flag it was asked with, and nothing is published when the node fails
+//@ func (b *BlockPollConnector) pollBlocks(ctx context.Context, logger *zap.Logger, lastBlock *NewBlock, safe bool) (r *NewBlock, err error)
+//@   props C10
+//@   requires b != nil && b.Connector != nil && lastBlock != nil && allocated(lastBlock) && lastBlock.Number != nil && allocated(lastBlock.Number)
+//@   ensures [keeps-last-on-error] err != nil ==> r == lastBlock
+//@   ensures [never-backwards] err == nil ==> r != nil && r.Number != nil && bigOf(r.Number) >= bigOf(old(lastBlock.Number))
+//@   modifies *
+//@   nopanic
+//@   at [b.blockFeed.Send(latestBlock)]: assert [published-head-is-newer-and-flagged] latestBlock != nil && latestBlock.Number != nil && bigOf(latestBlock.Number) > bigOf(lastBlock.Number) && latestBlock.Safe == safe
 
 //@ func (b *BlockPollConnector) EnablePoller()
 //@   assume-contract
@@ -88,7 +119,7 @@ package ethereum
 
 //@ func (w *Watcher) getBlockNumber(logger *zap.Logger, ctx context.Context) (n uint64, err error)
 //@   props C10
-//@   requires w != nil && w.ethConn != nil
+//@   requires w != nil && w.ethConn != nil && w.ethConn.Connector != nil
 //@   ensures [one-head-read] ghostCount("headread") == old(ghostCount("headread")) + 1
 //@   modifies fresh NewBlock.*, fresh lib:big.Int.v
 //@   nopanic
